@@ -677,6 +677,7 @@ static void op_misc(const char *op)
     }
     else if (!strcmp(op, "delay")) { shim.delay_state = (unsigned)(argi("seed", 0) * 2654435761u + g_rank * 40503u + 1); shim.delay_max_us = (int)argi("max_us", 0);
         if (argi("seed", 0) == 0) shim.delay_state = 0; logf_("R %d delay\n", g_line); }
+    else if (!strcmp(op, "shortwrite")) { shim.short_write = (int)argi("min", 16); logf_("R %d shortwrite fired=%ld\n", g_line, shim.short_fired); }
     else if (!strcmp(op, "p2plog")) { shim.log_p2p = (int)argi("on", 1); logf_("R %d p2plog\n", g_line); }
     else if (!strcmp(op, "balance")) {
         MPI_Offset ms = -1; int e = ncmpi_inq_malloc_size(&ms);
@@ -778,7 +779,7 @@ int main(int argc, char **argv)
         auto_walk(op);
         g_line = 0;
     }
-    logf_("E 0 end walks=%ld\n", g_nwalks);
+    logf_("E 0 end walks=%ld shortw=%ld\n", g_nwalks, shim.short_fired);
     fclose(g_log); g_log = NULL;
     for (int i = 0; i < NT; i++) if (T[i] != MPI_DATATYPE_NULL) PMPI_Type_free(&T[i]);
     PMPI_Finalize();
